@@ -612,7 +612,7 @@ package ion
 
 //@ func (*binaryReader).next
 //@ split returns
-//@ requires brLocal(r) && r.err == nil && r.valueType == NoType && r.value == nil
+//@ requires brLocal(r) && r.err == nil && !r.eof && r.valueType == NoType && r.value == nil
 //@ requires bsNested(&r.bits)
 //@ modifies r.eof, r.lst, r.fieldName, r.annotations, r.valueType, r.value, r.ctx.arr, r.bits.pos, r.bits.state, r.bits.code, r.bits.null, r.bits.len, r.bits.stack.arr, vcStreamOf(r.bits.in).cur
 //@ ensures[C03,C06,C08] err == nil ==> brLocal(r)
